@@ -261,6 +261,8 @@ class Interp:
         self.check_time = 0.0
         self.n_checks = 0
         self.pins = {}
+        self.copy_origin = {}
+        self.keepalive = []
         from . import lib as _lib
         _lib.install(self)
 
@@ -652,6 +654,8 @@ class Interp:
         self.domain_pending = []
         self._dom_seen = set()
         self.pins = {}
+        self.copy_origin = {}
+        self.keepalive = []
         # module-level state is rebuilt per path (registries are mutable)
         self.modules = {}
 
